@@ -122,17 +122,39 @@ def run(res, tier, seed, wd, replay=None):
     # ---- A': random cooperative schedules over the shim points (independent of the shape Holder.tla models)
     nsched = 400 if tier == "quick" else 8000
     trR = os.path.join(wd, "trace-hsched.ndjson")
-    sr, _ = cvh(["holder-sched", "--seed", seed, "--runs", nsched, "--out", trR], timeout=3000)
+    sr, outr = cvh(["holder-sched", "--seed", seed, "--runs", nsched, "--out", trR], timeout=3000, check=False)
+    if sr is None:
+        rc = LAST_CVH["rc"]
+        if rc in (-6, -11, -7, -4, 134, 139, 135, 132):
+            # killed by a signal while several threads use one holder: memory corruption (see the free-running driver below)
+            res.flag("C18", "the-process-scheduling-threads-on-one-holder-was-killed-by-a-signal", {"rc": rc, "output_tail": outr[-400:]},
+                     {"engine": "holder", "origin": {"how": "holder-sched", "args": ["--seed", seed, "--runs", nsched], "run": None}, "seed": seed})
+            sr = {"runs": 0, "steps": 0, "stuck": 0}
+        else:
+            raise ToolError("harness holder-sched gave no summary (rc=%s):\n%s" % (rc, outr[-2000:]))
+    else:
+        traces.append(trR)
     log("[A'] %d random schedules over the shim points (%d scheduling steps, stuck=%d)" % (sr["runs"], sr["steps"], sr["stuck"]))
     res.notes["random_schedules"] = sr["runs"]
-    traces.append(trR)
     ntr += sr["runs"]
     # ---- B: free-running
     runs = 300 if tier == "quick" else 5000
     trB = os.path.join(wd, "trace-hstress.ndjson")
-    s2, _ = cvh(["holder-stress", "--seed", seed, "--runs", runs, "--out", trB], timeout=1800)
+    s2, out2 = cvh(["holder-stress", "--seed", seed, "--runs", runs, "--out", trB], timeout=1800, check=False)
+    if s2 is None:
+        rc = LAST_CVH["rc"]
+        if rc in (-6, -11, -7, -4, 134, 139, 135, 132):
+            # the process that hammers ONE holder from several threads was killed by SIGABRT / SIGSEGV / SIGBUS / SIGILL: memory
+            # was corrupted. The only unsafe code of the workspace is the holder's cell; racing writes and reads of it (a freed or
+            # half-written Arc) are exactly what C18 excludes. An abort cannot be caught in-process: it is data, not a tool error.
+            res.flag("C18", "the-process-hammering-one-holder-was-killed-by-a-signal", {"rc": rc, "output_tail": out2[-400:]},
+                     {"engine": "holder", "origin": {"how": "holder-stress", "args": ["--seed", seed, "--runs", runs], "run": None}, "seed": seed})
+            s2 = {"runs": 0, "ops": 0}
+        else:
+            raise ToolError("harness holder-stress gave no summary (rc=%s):\n%s" % (rc, out2[-2000:]))
+    else:
+        traces.append(trB)
     log("[B] %d free-running runs, %d calls" % (s2["runs"], s2["ops"]))
-    traces.append(trB)
     ntr += s2["runs"]
     allf = os.path.join(wd, "trace-all.ndjson")
     nev = concat(traces, allf)
